@@ -314,6 +314,8 @@ class ktensor:
         factor_matrices = []
         for i in range(nd):
             factor_matrices.append(function_handle((shape[i], num_components)))
+            if factor_matrices[i].shape != (shape[i], num_components):
+                assert False, "function_handle must return arrays of the requested shape"
         return cls(factor_matrices, weights, copy=False)
 
     @classmethod
